@@ -2,7 +2,7 @@
 # ./run.sh <ID> <quick|thorough> [--replay path]
 cd "$(dirname "$0")"
 [ -x /verif/.venv/bin/python ] && /verif/.venv/bin/python -c "import crosshair, z3" 2>/dev/null || ./setup.sh >/dev/null || { echo "setup failed"; exit 2; }
-export PYTHONPATH=/verif${PYTHONPATH:+:$PYTHONPATH}
+export PYTHONPATH=${VERIF_REPO:+$VERIF_REPO:}/verif${PYTHONPATH:+:$PYTHONPATH}
 export PYTHONWARNINGS=ignore
 export PYTHONDONTWRITEBYTECODE=1
 export VINCI1IT2000_FORMULAS_VERIF=1
